@@ -325,6 +325,25 @@ def loop_shape(gwe: ast.AST | None, reader: ast.AST | None) -> tuple[list[str], 
     return toks, dispatch, handlers
 
 
+def request_keys(reader: ast.AST | None) -> tuple[list[str], list[str]]:
+    """keys of the `params=` and `headers=` dict literals of the reader's `client.stream(...)` call
+    (a `Last-Event-ID` header would override `after_sequence` on the server)"""
+    params: list[str] = ["?"]
+    headers: list[str] = ["?"]
+    if reader is None:
+        return params, headers
+    for n in ast.walk(reader):
+        if isinstance(n, ast.Call) and isinstance(n.func, ast.Attribute) and n.func.attr == "stream":
+            for k in n.keywords:
+                if k.arg in ("params", "headers") and isinstance(k.value, ast.Dict):
+                    keys = [kk.value if isinstance(kk, ast.Constant) and isinstance(kk.value, str) else "?" for kk in k.value.keys]
+                    if k.arg == "params":
+                        params = keys
+                    else:
+                        headers = keys
+    return params, headers
+
+
 def server_done_status(tree: ast.AST | None) -> Any:
     """`if gen is None: raise HTTPException(..., status_code=N)` in `_stream_events`"""
     se = _find_def(tree, "_stream_events") if tree is not None else None
@@ -391,12 +410,15 @@ def generate(notes: list[str]) -> list[str]:
     lp_shape: list[str] = ["?unparsed"]
     dispatch: list[tuple[int, str]] = []
     handlers: list[tuple[str, str]] = []
+    req_params: list[str] = ["?"]
+    req_headers: list[str] = ["?"]
     try:
         tree = ast.parse(open(repo_path(CLIENT)).read())
         gwe = _find_def(tree, "get_workflow_events")
         reader = _find_def(gwe, "reader") if gwe is not None else None
         cons_shape = consumer_shape(tree)
         lp_shape, dispatch, handlers = loop_shape(gwe, reader)
+        req_params, req_headers = request_keys(reader)
         if gwe is not None:
             args = gwe.args  # type: ignore[attr-defined]
             names = [a.arg for a in args.args]
@@ -480,6 +502,11 @@ def generate(notes: list[str]) -> list[str]:
     out.append(f"def consumerShape : List String := {_lean_strs(cons_shape)}")
     out.append("/-- the reconnect loop of `reader` in source order: cursor in / sent / moved / queued, counter reset / incremented / compared -/")
     out.append(f"def loopShape : List String := {_lean_strs(lp_shape)}")
+    if "?" in req_params or "?" in req_headers:
+        notes.append(f"gen/sseclient: params/headers of the stream request not literal dicts: {req_params!r} {req_headers!r}")
+    out.append("/-- keys of the query parameters and of the headers the reader sends with every request -/")
+    out.append(f"def requestParams : List String := {_lean_strs(req_params)}")
+    out.append(f"def requestHeaders : List String := {_lean_strs(req_headers)}")
     out.append("/-- `response.status_code == N` branches of `reader`, in order -/")
     out.append("def statusDispatch : List (Nat × String) := [" + ", ".join(f"({c}, {_lean_str(a)})" for c, a in dispatch if c >= 0) + "]")
     out.append("/-- `except` clauses of `reader` in source order with what their first statement does -/")
